@@ -6,12 +6,13 @@ Strings travel as lower-case hex of their UTF-8 bytes, `-` for the empty string.
 
 ```
 ge new <reg> <name> <msg> <src>                         factory with these preset fields      -> ok
-ge call <dst> <reg> <Method> <site> F:<s> P:<s>,.. S:<frames>   regs[dst] := regs[reg].Method(..) -> obs
+ge call <dst> <reg> <Method> <site> F:<s> P:<s>,.. S:<frames> E:<elems>   regs[dst] := regs[reg].Method(..) -> obs
 ge conv <dst> <reg> <Method> <argreg>                    Convert*/of a gerror value            -> obs
 ge obs <reg>                                             observe a register                    -> obs
 ge metric <s>                                            StackElem{Name: s}.Metric()           -> s
 ge trim <s>                                              strings.TrimSpace                     -> s
 ```
+`ge race <seed> <n>` runs the chains from 16 goroutines under the race detector (Go side only).
 `<frames>` is a comma-separated run-length list `<s>*<count>`; `<site>` selects the Go call site and
 is ignored here.  obs = `n=<s> m=<s> s=<s> d=<s> k=<len(stack)>`.
 -/
@@ -77,7 +78,7 @@ def handle (st : St) (ws : List String) : St × String :=
     | some r, some n, some m, some s => (set st r { name := n, msg := m, src := s, dtag := [], stack := [] }, "ok")
     | some _, _, _, _ => (st, "bad-utf8")
     | _, _, _, _ => (st, "bad-op")
-  | ["call", d, r, m, _site, f, p, s] =>
+  | ["call", d, r, m, _site, f, p, s, _elems] =>
     match d.toNat?, r.toNat?, Method.ofGoName m, field "F:" f, field "P:" p, field "S:" s with
     | some d, some r, some m, some f, some p, some s =>
       match get st r, dec f, decList p, decFrames s with
@@ -103,6 +104,9 @@ def handle (st : St) (ws : List String) : St × String :=
       | some e => (st, obs e)
       | none => (st, "bad-reg")
     | none => (st, "bad-op")
+  | ["race", _, _] =>
+    -- by `C15.derivations_write_only_fresh` / `concurrent_results_schedule_independent` the model's answer is constant
+    (st, "race-free results-equal")
   | ["metric", s] => match dec s with
     | some s => (st, enc (metric s))
     | none => (st, "bad-utf8")
